@@ -220,6 +220,8 @@ def make_textpath_models():
 
     def m_next(ex, st, args, callee, ty):
         it = _obj(ex, st, args[0])
+        if isinstance(it, VecM):  # generic `<T as Iterator>::next` on a list-like iterator (Matches, Chars, ...)
+            return opt_some(ex, it.items.pop(0)) if it.items else opt_none(ex)
         if it.i < it.j:
             it.i += 1
             return opt_some(ex, it.toks[it.i - 1][0])
